@@ -40,6 +40,13 @@ such case is a unit, an obligation or a scenario that now exists:
   history".  C09d -> the declared-target-type argument of `convert_event_and_execute_entry` labelled C09 + explicit entry through every row
   kind in `hist`.  C10d -> tolerant completion-helper rewrite (was drift) + `defer` scenario "handled in one region, deferred in another".
   C06d (type-level) -> `sel` own-internal-table scenario tagged C06/C07.  C11d -> caught; `block` scenario "terminate and interrupt both active" added as witness.
+* e-wave (authors were given the full list of earlier changes and told to go elsewhere): C06e missed at first (the failing row obligation
+  was not labelled C06) -> row result obligations labelled C06 + `sel` scenario "internal-row-kinds.result".  C04e missed (the contract of the
+  priority function only fixed the top-level case) -> exact pass rules per policy and source + `defer` scenario for
+  `event_queue_before_deferred_queue`.  C05e (`stable_sort` -> `partition`): drift, no scenario -> `defer` scenarios "every arrangement around a
+  handled event".  C08e missed (label) -> C08 on the traversal obligation.  C13e: drift, no scenario -> `queue` scenario "submachine sends itself
+  an unhandled event".  C02e decided by the scenario added for C09d, then also by contract (a direct `execute_entry` call in a row is an
+  obligation failure).  C01e C03e C07e C09e C10e C11e C12e caught by contracts at once; witness scenarios added for C09e C11e C12e.
 * type-level changes (no contract reaches them; the native families decide - since the uncovered-code trigger of 10.3(c) also in the quick tier): C17b, C17c, C13b, C07c, C18c, C06d.
 
 ''' % n
